@@ -176,6 +176,8 @@ type cOp struct {
 	Offsets []int64   `json:"offsets,omitempty"`
 	Big     bool      `json:"big,omitempty"`
 	Pub     []ref.Msg `json:"-"`
+	PubT    []int64   `json:"pub_times,omitempty"`
+	OutT    []int64   `json:"out_times,omitempty"`
 	// outputs
 	Next    int64        `json:"next"`
 	Out     []ref.Msg    `json:"-"`
